@@ -12,7 +12,13 @@ theorem limit_accepts_exact (m : Nat) (f : Frame) (rest : List UInt8) (h : f.pay
     decodeBuffer (m : Int) (encodeCodec f ++ rest) = .frame f rest
     ∧ decodeSlice (m : Int) (encodeCodec f ++ rest) = .frame f rest
     ∧ decodeBytes (m : Int) (encodeCodec f ++ rest) = .frame f rest := by
-  sorry
+  have hmax : (m : Int) < 0 ∨ f.payload.length ≤ (m : Int).toNat := by
+    right; simp only [Int.toNat_natCast]; omega
+  refine ⟨decodeBuffer_encode' _ f rest (by omega) hmax, ?_, ?_⟩
+  · simp only [decodeSlice, Gen.sliceMinLen, Gen.sliceLongHdr, Gen.sliceShortHdr]
+    exact decodeSliceLike_encode' _ f rest (by omega) hmax
+  · simp only [decodeBytes, Gen.bytesMinLen, Gen.bytesLongHdr, Gen.bytesShortHdr]
+    exact decodeSliceLike_encode' _ f rest (by omega) hmax
 
 /-- … and one of limit+1 bytes is rejected as soon as its header is complete (body bytes are never awaited) -/
 theorem limit_rejects_next (m : Nat) (f : Frame) (h : f.payload.length = m + 1) (hok : m + 10 < two64)
@@ -22,52 +28,82 @@ theorem limit_rejects_next (m : Nat) (f : Frame) (h : f.payload.length = m + 1) 
     ∧ decodeSlice (m : Int) (hdr ++ f.payload.take k) = .error
     ∧ decodeBytes (m : Int) (hdr ++ f.payload.take k) = .error
     ∧ peekFrameLen (m : Int) (hdr ++ f.payload.take k) = .error := by
-  sorry
+  intro hdr
+  by_cases hs : m + 1 ≤ 255
+  · have hhdr : hdr = [codecFlags f, UInt8.ofNat (m + 1)] := by
+      simp only [hdr, if_pos hs, encodeCodec_short f (by omega), h, List.take_succ_cons, List.take_zero]
+    rw [hhdr]
+    have hl := isLong_codecFlags f
+    have hr : (UInt8.ofNat (m + 1)).toNat = m + 1 := toNat_ofNat_small _ hs
+    simp only [decodeBuffer, decodeSlice, decodeBytes, decodeSliceLike, peekFrameLen, List.cons_append,
+      List.nil_append, hl, rawSize_short, hr, exceeds_succ, List.length_cons, if_true,
+      Bool.false_eq_true, if_false, Gen.bufferShortHdr, Gen.sliceMinLen, Gen.sliceShortHdr,
+      Gen.bytesMinLen, Gen.bytesShortHdr, Gen.peekShortHdr]
+    refine ⟨?_, ?_, ?_, ?_⟩ <;> repeat (first | rw [if_neg (by omega)] | rfl)
+  · have hhdr : hdr = (codecFlags f ||| Gen.ZMTP_FLAG_LONG) :: be64 (m + 1) := by
+      simp only [hdr, if_neg hs, encodeCodec_long f (by omega), h]
+      simp only [List.take_succ_cons, be64, List.cons_append, List.take_zero]
+    rw [hhdr]
+    have hl := isLong_codecFlags_long f
+    have hr : ∀ t, rawSize (codecFlags f ||| Gen.ZMTP_FLAG_LONG) (be64 (m + 1) ++ t) = m + 1 :=
+      fun t => rawSize_long _ _ _ hl (by omega)
+    simp only [decodeBuffer, decodeSlice, decodeBytes, decodeSliceLike, peekFrameLen, List.cons_append,
+      hl, hr, exceeds_succ, List.length_cons, List.length_append, be64_length', if_true,
+      Gen.bufferLongHdr, Gen.sliceMinLen, Gen.sliceLongHdr,
+      Gen.bytesMinLen, Gen.bytesLongHdr, Gen.peekLongHdr]
+    refine ⟨?_, ?_, ?_, ?_⟩ <;> repeat (first | rw [if_neg (by omega)] | rfl)
 
 /-- the decoders are total and never reach the `panic` outcome, whatever the bytes -/
 theorem decoders_never_panic (max : Int) (src : List UInt8) :
     decodeBuffer max src ≠ .panic ∧ decodeSlice max src ≠ .panic ∧ decodeBytes max src ≠ .panic := by
-  sorry
+  exact ⟨decodeBuffer_ne_panic max src, decodeSliceLike_ne_panic _ _ _ max src,
+    decodeSliceLike_ne_panic _ _ _ max src⟩
 
 /-- an incomplete frame never makes the live decoder hold more than header + limit bytes -/
 theorem needMore_bounded (m : Nat) (src : List UInt8) (h : decodeBuffer (m : Int) src = .needMore) :
     src.length < 9 + m := by
-  sorry
+  exact needMore_bounded' m src h
 
 /-- The engine never panics on any input (the 256th frame of a message is a protocol error). -/
 theorem engine_never_panics (spec : AbsSpec) (cfg : Cfg) (hlim : Gen.MAX_FRAMES_PER_MESSAGE ≤ cfg.frameLimit)
     (reads : List (Nat × Bytes)) :
     (feedAll spec cfg Eng.init reads).1.panicked = false := by
-  sorry
+  exact (feedAll_inv hlim reads _ PanicInv_init).1
 
 /-- the partially assembled message never exceeds the container limit -/
 theorem partial_bounded (spec : AbsSpec) (cfg : Cfg) (hlim : Gen.MAX_FRAMES_PER_MESSAGE ≤ cfg.frameLimit)
     (reads : List (Nat × Bytes)) :
     (feedAll spec cfg Eng.init reads).1.partialBatch.length ≤ Gen.MAX_FRAMES_PER_MESSAGE := by
-  sorry
+  exact (feedAll_inv hlim reads _ PanicInv_init).2
 
 /-- With MAXMSGSIZE = m ≥ 0, between reads an open (unencrypted) connection holds fewer than
-`max 64 (9 + m)` undecoded bytes: an incomplete greeting or one incomplete frame. -/
+`max 64 (9 + m)` undecoded bytes: an incomplete greeting or one incomplete frame. (`hlim`: the engine's own
+frame-count limit is within the frame container's capacity — without it the model engine can reach the
+`panicked` state, see `Rzmq.accumulator_bounded_false`.) -/
 theorem accumulator_bounded (spec : AbsSpec) (hw : WellBehaved spec) (cfg : Cfg) (m : Nat)
-    (hm : cfg.maxMsgSize = (m : Int)) (reads : List (Nat × Bytes)) :
+    (hm : cfg.maxMsgSize = (m : Int)) (hlim : Gen.MAX_FRAMES_PER_MESSAGE ≤ cfg.frameLimit)
+    (reads : List (Nat × Bytes)) :
     let s := (feedAll spec cfg Eng.init reads).1
     s.phase ≠ .closed → s.sealed = false → s.acc.length < max 64 (9 + m) := by
-  sorry
+  exact accumulator_bounded_of_frameLimit hw m hm hlim reads
 
 /-- every error closes the connection, and a closed engine emits nothing more -/
 theorem error_closes (spec : AbsSpec) (cfg : Cfg) (t : Nat) (s : Eng) (d : Bytes) (e : ErrClass)
     (h : AppAct.peerError e ∈ (onNetworkBytes spec cfg t s d).2.app) :
     (onNetworkBytes spec cfg t s d).1.phase = .closed := by
-  sorry
+  exact run_peerError _ _ h
 
 theorem closed_is_silent (spec : AbsSpec) (cfg : Cfg) (t : Nat) (s : Eng) (d : Bytes) (h : s.phase = .closed) :
     (onNetworkBytes spec cfg t s d).2 = {} ∧ (onNetworkBytes spec cfg t s d).1.phase = .closed := by
-  sorry
+  have hc : ({ s with acc := s.acc ++ d } : Eng).phase = .closed := h
+  unfold onNetworkBytes
+  rw [run_closed hc]
+  exact ⟨rfl, h⟩
 
 /-- malformed READY metadata is an error value, never a crash: the parser is total and only accepts
 well-formed property lists (names valid UTF-8, lengths within the body) -/
 theorem parseProps_sound (body : Bytes) (ps : Props) (h : parseProps (body.length + 1) body = some ps) :
     encodeProps ps = body ∧ ∀ p ∈ ps, validUtf8 p.1 = true ∧ p.1.length ≤ 255 := by
-  sorry
+  exact parseProps_sound' _ body ps h
 
 end Rzmq.C07
